@@ -235,6 +235,28 @@ static void unit_loop()
         std::vector<NItem> items = (a[1] == "-") ? std::vector<NItem>() : parse_nested_schema(a[1], pos);
         if (colvarparse::check_braces(conf, 0) != COLVARS_OK) out = "reject";
         else out = nested_level(items, conf) ? "accept" : "reject";
+      } else if (cmd == "KS") {
+        // successive key_lookup calls on ONE parser object, through ONE std::string object (same address every time)
+        P p;
+        std::istringstream cs(a[0]);
+        std::string one, conf;
+        while (std::getline(cs, one, '|')) {
+          size_t c1 = one.find(':'), c2 = one.find(':', c1 + 1);
+          conf = unhex(one.substr(0, c1));
+          std::string key = unhex(one.substr(c1 + 1, c2 - c1 - 1)), data;
+          size_t sp = (size_t) atol(one.substr(c2 + 1).c_str());
+          size_t const nreg = p.data_begin_pos.size();
+          cvm::clear_error();
+          bool f = p.key_lookup(conf, key.c_str(), &data, &sp);
+          std::string r;
+          if (f) {
+            std::string reg = "none";
+            if (p.data_begin_pos.size() > nreg) reg = cvm::to_str(p.data_begin_pos.back()) + ":" + cvm::to_str(p.data_end_pos.back());
+            r = "found " + hex(data) + " " + cvm::to_str(sp) + " " + reg;
+          } else if (cvm::get_error() != COLVARS_OK) r = "error " + cvm::to_str(sp);
+          else r = "notfound";
+          out += (out.size() ? ";" : "") + r;
+        }
       } else if (cmd == "PS" || cmd == "MS") {
         // one parser object over a sequence of texts.  PS: nobody clears it; MS: as colvarmodule::parse_config does
         // (error while parsing -> clear(); check_keywords clears the registry itself on success; failure -> clear())
@@ -243,16 +265,17 @@ static void unit_loop()
         std::vector<NItem> items = (a[1] == "-") ? std::vector<NItem>() : parse_nested_schema(a[1], pos);
         std::istringstream cs(a[2]);
         std::string one;
+        std::string conf;   // ONE string object for the whole sequence, as the module's local variable at a fixed address
         while (std::getline(cs, one, '|')) {
           cvm::clear_error();
           bool ok;
           if (cmd == "PS") {
-            std::string conf = unhex(one);
+            conf = unhex(one);
             ok = nested_lookups(p, items, conf);
             std::string c2(conf);
             if (p.check_keywords(c2, "seq") != COLVARS_OK) ok = false;
           } else {
-            std::string conf = read_config_lines(p, unhex(one));
+            conf = read_config_lines(p, unhex(one));
             if (colvarparse::check_braces(conf, 0) != COLVARS_OK) ok = false;
             else {
               ok = nested_lookups(p, items, conf);
